@@ -90,6 +90,7 @@ type Step struct {
 	Inst   string `json:"inst,omitempty"` // instance name
 	Kind   string `json:"kind,omitempty"` // ok | bad (start)
 	Ms     int    `json:"ms,omitempty"`
+	Flavor int    `json:"flavor,omitempty"` // which kind of bad start
 	Sync   bool   `json:"sync,omitempty"`   // settle after the step
 	Expect *Obs   `json:"expect,omitempty"` // replay: the observation WsImpl predicts once the connection is quiescent
 }
@@ -100,7 +101,7 @@ type Scenario struct {
 	Cfg   Cfg    `json:"cfg"`
 	Steps []Step `json:"steps"`
 	End   string `json:"end"`            // how the driver ends a still-open connection: abort | closef | term | cancel
-	Long  bool   `json:"long,omitempty"` // confirmation rerun: 10x waits
+	Long  bool   `json:"long,omitempty"` // confirmation rerun: longer waits
 	Iters int    `json:"iters,omitempty"`
 }
 
@@ -547,8 +548,17 @@ func wire(proto string, st Step) (mt int, data []byte) {
 	case "initbad":
 		return websocket.TextMessage, []byte(`{"type":"connection_init","payload":"not an object"}`)
 	case "start":
-		if st.Kind == "bad" {
-			return websocket.TextMessage, []byte(fmt.Sprintf(`{"type":"%s","id":"%s","payload":{"query":"subscription S_%s { nosuchfield }"}}`, startT, st.ID, st.Inst))
+		if st.Kind == "bad" { // fails before execution: error frame(s) + complete, no Source
+			pl := fmt.Sprintf(`{"query":"subscription S_%s { nosuchfield }"}`, st.Inst) // validation error
+			switch st.Flavor % 4 {
+			case 1:
+				pl = `null` // an empty request (repaired in 427ed87: used to dereference nil)
+			case 2:
+				pl = `5` // not an object: "invalid json"
+			case 3:
+				pl = `{"query":"subscription S_x {"}` // parse error
+			}
+			return websocket.TextMessage, []byte(fmt.Sprintf(`{"type":"%s","id":"%s","payload":%s}`, startT, st.ID, pl))
 		}
 		return websocket.TextMessage, []byte(fmt.Sprintf(`{"type":"%s","id":"%s","payload":%s}`, startT, st.ID, q(st.Inst)))
 	case "stop":
@@ -728,8 +738,8 @@ func runScenario(sc *Scenario) *Result {
 	t0 := time.Now()
 	s := &session{sc: sc, inst: map[string]*instState{}, sources: map[string]*source{}, cendCh: make(chan struct{}),
 		changed: make(chan struct{}, 1), unit: time.Second}
-	if sc.Long {
-		s.unit = 10 * time.Second
+	if sc.Long { // confirmation rerun of a whole scenario: 3x on top (first look 6 s, second look 60 s)
+		s.unit = 3 * time.Second
 	}
 	res := &Result{ID: sc.ID, Diverge: []string{}, Notes: []string{}, Events: []Event{}}
 	s.startServer()
@@ -748,8 +758,8 @@ func runScenario(sc *Scenario) *Result {
 	tmo := cfg.InitTimeout > 0 || (cfg.proto() == "tws" && cfg.PP > 0 && !cfg.MPO)
 	s.logEv(Event{E: "Reset", M: cfg.proto(), S: flags(cfg.InitFn != "none") + flags(tmo), ID: sc.ID}, nil)
 
-	gen := 3 * s.unit // first look of an absence verdict
-	confirm := 12 * s.unit
+	gen := 2 * s.unit      // first look of an absence verdict
+	confirm := 20 * s.unit // second look: 10x
 	for si, st := range sc.Steps {
 		switch st.Op {
 		case "send":
@@ -994,9 +1004,9 @@ func (s *session) hammer(st Step, iters int) {
 			return
 		}
 		s.send(Step{M: "stop", ID: st.ID})
-		ok := s.waitFor(3*s.unit, func() bool { s.mu.Lock(); defer s.mu.Unlock(); return s.inst[i2].src == "exited" || s.cend })
+		ok := s.waitFor(2*s.unit, func() bool { s.mu.Lock(); defer s.mu.Unlock(); return s.inst[i2].src == "exited" || s.cend })
 		if !ok {
-			ok = s.waitFor(12*s.unit, func() bool { s.mu.Lock(); defer s.mu.Unlock(); return s.inst[i2].src == "exited" || s.cend })
+			ok = s.waitFor(20*s.unit, func() bool { s.mu.Lock(); defer s.mu.Unlock(); return s.inst[i2].src == "exited" || s.cend })
 		}
 		if !ok {
 			s.logEv(Event{E: "Stall", M: "stop-cancel", I: i2, ID: st.ID}, nil)
